@@ -44,6 +44,19 @@ pub fn run<S: Spec>(case: &LawsCase<S::V>, ev: &mut Counters) -> Result<(), Stri
     if case.items.is_empty() {
         return Ok(());
     }
+    run_variant::<S>(case, false, ev)?;
+    if S::CODED {
+        // the same laws on items of a trained (dictionary / Huffman encoded) region
+        let refs: Vec<&S::V> = case.items.iter().collect();
+        if case.items.iter().all(|v| S::accepts(&refs, v)) {
+            run_variant::<S>(case, true, ev).map_err(|e| format!("[trained region] {e}"))?;
+            ev.hit("trained-source-region");
+        }
+    }
+    Ok(())
+}
+
+fn run_variant<S: Spec>(case: &LawsCase<S::V>, trained: bool, ev: &mut Counters) -> Result<(), String> {
     let k = case.k.min(case.items.len() - 1);
     let v = &case.items[k];
     let mut cx = Cx::default();
@@ -54,6 +67,25 @@ pub fn run<S: Spec>(case: &LawsCase<S::V>, ev: &mut Counters) -> Result<(), Stri
         let rr = &mut r;
         let i = guard(|| S::push_via(&mut RegionSink(rr), x, &mut Forms::canonical())).map_err(|p| format!("push panicked: {p}"))?;
         idxs.push(i);
+    }
+    let training = if trained { Some(r) } else { None };
+    let mut r = match &training {
+        None => std::mem::take(&mut S::R::default()),
+        Some(t0) => guard(|| S::R::merge_regions(std::iter::once(t0))).map_err(|p| format!("merge_regions panicked: {p}"))?,
+    };
+    if trained {
+        idxs.clear();
+        for x in &case.items {
+            let rr = &mut r;
+            let i = guard(|| S::push_via(&mut RegionSink(rr), x, &mut Forms::canonical())).map_err(|p| format!("push of a covered value into the trained region panicked: {p}"))?;
+            idxs.push(i);
+        }
+    } else {
+        // rebuild the untrained source (the first region was consumed as training data holder)
+        for x in &case.items {
+            let rr = &mut r;
+            let _ = guard(|| S::push_via(&mut RegionSink(rr), x, &mut Forms::canonical())).map_err(|p| format!("push panicked: {p}"))?;
+        }
     }
     let idx = idxs[k];
     cx.has_successor = k + 1 < case.items.len();
@@ -97,10 +129,26 @@ pub fn run<S: Spec>(case: &LawsCase<S::V>, ev: &mut Counters) -> Result<(), Stri
         }
     }
     // region-to-region copies into a region with its own history
-    for (rep, from_region) in [("region-backed", true), ("owned-borrowed", false)] {
-        let mut r2 = S::R::default();
+    let mut passes = vec![("region-backed", true, false), ("owned-borrowed", false, false)];
+    if training.is_some() {
+        // encoded -> encoded and borrowed -> encoded
+        passes.push(("region-backed", true, true));
+        passes.push(("owned-borrowed", false, true));
+    }
+    for (rep, from_region, dst_trained) in passes {
+        // destination: a default region, or a region trained on the same statistics
+        let mut r2 = match (&training, dst_trained) {
+            (Some(t0), true) => guard(|| S::R::merge_regions(std::iter::once(t0))).map_err(|p| format!("merge_regions panicked: {p}"))?,
+            _ => S::R::default(),
+        };
         let mut dst_model: Vec<(Idx<S>, &S::V)> = Vec::new();
         for x in &case.dst_items {
+            if dst_trained {
+                let refs: Vec<&S::V> = case.items.iter().collect();
+                if !S::accepts(&refs, x) {
+                    continue;
+                }
+            }
             let rr = &mut r2;
             let i = guard(|| S::push_via(&mut RegionSink(rr), x, &mut Forms::canonical())).map_err(|p| format!("push panicked: {p}"))?;
             dst_model.push((i, x));
